@@ -163,8 +163,9 @@ static void alphabet_dec(int alpha){
       add_pkt("celt bw1 50ms/10 ch2 r0",3,"CELT WB 5ms stereo");
       add_pkt("silk nb 60ms fec ch2",3,"SILK NB 60ms stereo +LBRR");
    }
-   if (alpha>=0) add_voiced_run(16000,110.0,20000,OPUS_BANDWIDTH_WIDEBAND,"SILK WB voiced f0=110");
-   if (alpha>=1) add_voiced_run(8000,140.0,12000,OPUS_BANDWIDTH_NARROWBAND,"SILK NB voiced f0=140");
+   /* pitch at the top of the legal lag range (18 ms: 288 samples at 16 kHz): concealment lets the lag drift upwards from there */
+   if (alpha>=0) add_voiced_run(16000,58.0,20000,OPUS_BANDWIDTH_WIDEBAND,"SILK WB voiced f0=58");
+   if (alpha>=1) add_voiced_run(16000,110.0,20000,OPUS_BANDWIDTH_WIDEBAND,"SILK WB voiced f0=110");
    add_op("decode_float(hybrid FB 20ms stereo)",OP_IO,hyb,0,1,0);
    if (alpha>=1) add_op("decode_float(CELT FB 20ms stereo)",OP_IO,celt,0,1,0);
    add_op("decode_fec(SILK WB 20ms mono +LBRR)",OP_IO,lbrr,1,0,0);
